@@ -161,6 +161,7 @@ pub fn c18(tier: &str, seed: u64) -> Check {
         spaces.push(c18_space_isize(4, &IM10I));
         spaces.push(c18_space_usize(4, &U03_9));
     }
+    spaces.push(crate::props::large::c18_big());
     let report = super::report(
         "C18",
         tier,
@@ -297,6 +298,7 @@ pub fn c19(tier: &str, seed: u64) -> Check {
     if thorough {
         spaces.push(c19_space(8));
     }
+    spaces.push(crate::props::large::c19_big(thorough));
     let report = super::report(
         "C19",
         tier,
